@@ -875,6 +875,13 @@ PPL::linear_combine(Sparse_Row& x, const Dense_Row& y,
       }
     }
   }
+  if (coeff1 != 1) {
+    // The coefficients of `x' beyond the size of `y' are multiplied, too
+    // (as in the other combinations of row classes).
+    for (itr = x.lower_bound(y.size()); itr != x.end(); ++itr) {
+      (*itr) *= coeff1;
+    }
+  }
 }
 
 void
